@@ -60,9 +60,9 @@ Proof.
 Qed.
 
 Lemma pinv_apply f t co t' :
-  f_ensure_staged f = true -> wf_clause (fst co) -> PInv t -> apply f t co = Some t' -> PInv t'.
+  f_ensure_staged f = true -> f_lookup_staging f = true -> wf_clause (fst co) -> PInv t -> apply f t co = Some t' -> PInv t'.
 Proof.
-  intros FE WF P A. destruct co as [[kind key dig pay ok|key dig|id dig changes ok] oid]; simpl in A, WF.
+  intros FE FL WF P A. destruct co as [[kind key dig pay ok|named key dig|id dig changes ok] oid]; simpl in A, WF.
   - (* CREATE: the staged row is not a tuple *)
     destruct oid as [id|]; [|discriminate]. destruct ok; [|discriminate]. inversion A; subst; clear A.
     destruct P as [A B C D]. constructor; simpl; auto.
@@ -74,7 +74,7 @@ Proof.
       eauto.
   - (* ENSURE *)
     rewrite FE in A.
-    destruct (staged_tuple key (t_staged t)) eqn:ST; [inversion A; subst; auto|].
+    destruct (staged_tuple f key (t_staged t)) eqn:ST; [inversion A; subst; auto|].
     destruct (committed_tuple key (t_store t)) eqn:CT; [inversion A; subst; auto|].
     inversion A; subst; clear A.
     pose proof (pinv_mint t 2 P) as P1. unfold mint in P1. simpl in P1.
@@ -90,7 +90,7 @@ Proof.
     + intros g1 g2 k I1 I2 K T1 T2.
       assert (forall g, In g (t_staged t) -> is_tuple (g_row g) key -> False) as NOST.
       { intros g Ig [Tk Te]. pose proof (find_none _ _ ST g Ig) as Fn. simpl in Fn.
-        rewrite Tk, Te, !Z.eqb_refl in Fn. discriminate. }
+        rewrite Tk, Te, !Z.eqb_refl, FL in Fn. discriminate. }
       apply in_set_g in I1 as [->|I1]; apply in_set_g in I2 as [->|I2]; auto; simpl in *.
       * destruct T1 as [_ T1]; simpl in T1; subst k. exfalso; eauto.
       * destruct T2 as [_ T2]; simpl in T2; subst k. exfalso; eauto.
@@ -100,7 +100,7 @@ Proof.
     destruct (e_state e0 =? PENDING); [discriminate|].
     destruct ok; [|discriminate]. inversion A; subst; clear A.
     destruct (find_e_id _ _ _ FE0) as [Eid Ein].
-    set (g := match find_g id (t_staged t) with Some g => g | None => mkSg id e0 false false end).
+    set (g := match find_g id (t_staged t) with Some g => g | None => mkSg id e0 false false false end).
     assert (g_id g = id) as Gid.
     { unfold g. destruct (find_g id (t_staged t)) eqn:FG; auto. now destruct (find_g_in _ _ _ FG). }
     assert (forall e k, k <> 0 -> is_tuple (g_row g) k -> In e (t_store t) -> is_tuple e k -> e_id e = id) as OWN.
@@ -112,7 +112,7 @@ Proof.
       - destruct (find_g_in _ _ _ FG) as [Ig Gi]. rewrite <- Gi. eapply (p_staged _ P); eauto.
       - simpl in Tg. rewrite <- Eid. eapply (p_own _ P); eauto. }
     set (g' := if changes then mkSg id (mkE id (e_kind (g_row g)) (e_ver (g_row g)) (e_state (g_row g)) dig
-                                            (e_key (g_row g)) (e_pay (g_row g))) (g_new g) true else g).
+                                            (e_key (g_row g)) (e_pay (g_row g))) (g_new g) true (g_named g) else g).
     assert (g_id g' = id) as Gid' by (unfold g'; destruct changes; auto).
     assert (forall k, is_tuple (g_row g') k -> is_tuple (g_row g) k) as SAME.
     { unfold g'. destruct changes; auto. }
@@ -127,9 +127,10 @@ Proof.
 Qed.
 
 Lemma pinv_upto f cs : forall t,
-  f_ensure_staged f = true -> Forall (fun co => wf_clause (fst co)) cs -> PInv t -> PInv (fst (apply_upto f t cs)).
+  f_ensure_staged f = true -> f_lookup_staging f = true ->
+  Forall (fun co => wf_clause (fst co)) cs -> PInv t -> PInv (fst (apply_upto f t cs)).
 Proof.
-  induction cs as [|c cs IH]; intros t FE WF P; simpl; auto.
+  induction cs as [|c cs IH]; intros t FE FL WF P; simpl; auto.
   inversion WF; subst. destruct (apply f t c) eqn:A; simpl; auto.
   apply IH; auto. eapply pinv_apply; eauto.
 Qed.
@@ -138,13 +139,14 @@ Lemma Forall_filter {A} (P : A -> Prop) f l : Forall P l -> Forall P (filter f l
 Proof. induction 1; simpl; auto. destruct (f x); auto. Qed.
 
 Lemma pinv_plan f t cs :
-  f_ensure_staged f = true -> Forall (fun co => wf_clause (fst co)) cs -> PInv t -> PInv (fst (plan f t cs)).
+  f_ensure_staged f = true -> f_lookup_staging f = true ->
+  Forall (fun co => wf_clause (fst co)) cs -> PInv t -> PInv (fst (plan f t cs)).
 Proof.
-  intros FE WF P. unfold plan.
-  pose proof (pinv_upto f (filter (in_pass 0) cs) t FE (Forall_filter _ _ _ WF) P) as P0.
+  intros FE FL WF P. unfold plan.
+  pose proof (pinv_upto f (filter (in_pass 0) cs) t FE FL (Forall_filter _ _ _ WF) P) as P0.
   destruct (apply_upto f t (filter (in_pass 0) cs)) as [t0 ok0]; simpl in P0.
   destruct ok0; simpl; auto.
-  pose proof (pinv_upto f (filter (in_pass 1) cs) t0 FE (Forall_filter _ _ _ WF) P0) as P1.
+  pose proof (pinv_upto f (filter (in_pass 1) cs) t0 FE FL (Forall_filter _ _ _ WF) P0) as P1.
   destruct (apply_upto f t0 (filter (in_pass 1) cs)) as [t1 ok1]; simpl in P1.
   destruct ok1; simpl; auto.
   apply pinv_upto; auto. now apply Forall_filter.
@@ -156,7 +158,7 @@ Lemma pinv_declare cs : forall t,
 Proof.
   induction cs as [|c cs IH]; intros t WF P; simpl; auto.
   inversion WF; subst.
-  destruct c as [kind key dig pay ok|key dig|id dig changes ok].
+  destruct c as [kind key dig pay ok|named key dig|id dig changes ok].
   - pose proof (pinv_mint t kind P) as P1. unfold mint in P1. simpl in P1.
     destruct (IH _ H2 P1) as [Q1 Q2]. destruct (declare _ cs) as [t2 r]. simpl in *. split; auto.
   - destruct (IH _ H2 P) as [Q1 Q2]. destruct (declare t cs) as [t2 r]. simpl in *. split; auto.
@@ -203,11 +205,11 @@ Qed.
 (* No statement of well-formed clauses reaches a failing put: with the staged lookup, a refused statement
    is always refused before the first write. *)
 Theorem tx_write_loop_never_fails f dry time s stmt :
-  f_ensure_staged f = true -> Forall wf_clause stmt ->
+  f_ensure_staged f = true -> f_lookup_staging f = true -> Forall wf_clause stmt ->
   uniq_b (s_elems s) = true -> no_pending_b (s_elems s) = true ->
   fst (run_statement f dry time s stmt) <> OWriteFailed.
 Proof.
-  intros FE WF U NP. unfold run_statement.
+  intros FE FL WF U NP. unfold run_statement.
   set (t0 := mkT (s_elems s) [] [] (next_id (s_elems s))).
   assert (PInv t0) as P0.
   { destruct (uniq_spec _ U) as [_ UK]. constructor; simpl.
@@ -218,7 +220,7 @@ Proof.
       specialize (NP _ Ie). apply negb_true_iff, Z.eqb_neq in NP. contradiction. }
   destruct (pinv_declare stmt t0 WF P0) as [P1 W1].
   destruct (declare t0 stmt) as [t1 cs]. simpl in P1, W1.
-  pose proof (pinv_plan f t1 cs FE W1 P1) as P2.
+  pose proof (pinv_plan f t1 cs FE FL W1 P1) as P2.
   destruct (plan f t1 cs) as [t2 ok]. simpl in P2.
   destruct ok; simpl; [|discriminate].
   destruct dry; [discriminate|].
@@ -233,14 +235,14 @@ Qed.
    whole space as it was. *)
 Theorem tx_refused_noop_all f dry time s stmt o s' :
   f_plan_abort f = true -> f_refusal_discards f = true -> f_dry_discards f = true -> f_ensure_staged f = true ->
-  Forall wf_clause stmt -> uniq_b (s_elems s) = true -> no_pending_b (s_elems s) = true ->
+  f_lookup_staging f = true -> Forall wf_clause stmt -> uniq_b (s_elems s) = true -> no_pending_b (s_elems s) = true ->
   run_statement f dry time s stmt = (o, s') ->
   resp_of o = Refused \/ resp_of o = DryRun ->
   proj s' = proj s /\ s_seq s' = s_seq s + 1.
 Proof.
-  intros F1 F2 F3 F4 WF U NP R O.
+  intros F1 F2 F3 F4 F5 WF U NP R O.
   eapply tx_refused_noop; eauto.
-  pose proof (tx_write_loop_never_fails f dry time s stmt F4 WF U NP) as NW. rewrite R in NW. simpl in NW.
+  pose proof (tx_write_loop_never_fails f dry time s stmt F4 F5 WF U NP) as NW. rewrite R in NW. simpl in NW.
   destruct o; simpl in O; auto.
   - contradiction.
   - destruct O; discriminate.
